@@ -61,6 +61,21 @@ theorem phase_advance (s s' : St) (m : M6o) (hG : G6 s) (hP : Phase s m) (hs : s
     exact know_advance m _ hK
   · simp at hs
 
+/-- the installed root context is cancelled (no call is in progress): whether "a context is set" is not
+known any more -/
+theorem phase_cancelroot (s s' : St) (m : M6o) (hG : G6 s) (hP : Phase s m) (hs : step s .cancelroot = some s') :
+    Phase s' { m with hasCtx := none } := by
+  have hr := (step_refines s s' _ hG.r hs).1
+  have hfr := step_frame s s' _ hs rfl
+  simp only [step] at hs
+  split at hs
+  · rename_i hg
+    obtain ⟨hp, hK⟩ := hP.quiet hg.1
+    refine .rest hp (hfr.2.1.trans hg.1) ?_
+    rw [hr]
+    exact ⟨hK.delay, hK.epoch, fun c h => (by cases h), hK.st, hK.cnt, hK.live, hK.rkey⟩
+  · simp at hs
+
 theorem phase_quiesce (s s' : St) (m : M6o) (hP : Phase s m) (hs : step s .quiesce = some s') :
     Phase s' { m with st := fun k => match m.st k with
                       | .unknown e => if e < m.epoch then .absent else .unknown e
@@ -96,6 +111,7 @@ theorem phase_step (s s' : St) (e : Ev) (m : M6o) (hG : G6 s) (hP : Phase s m) (
   | quiesce => exact ⟨_, rfl, phase_quiesce s s' m hP hs⟩
   | probe j c => exact ⟨m, rfl, phase_other s s' _ m hG hP hs rfl (by simp)⟩
   | nilnext k => exact ⟨m, rfl, phase_other s s' _ m hG hP hs rfl (by simp)⟩
+  | cancelroot => exact ⟨_, rfl, phase_cancelroot s s' m hG hP hs⟩
 
 /-- the simulation relation between the model and `monC06o` -/
 def Sim6 (s : St) (m : M6o) : Prop := G6 s ∧ Phase s m
